@@ -297,6 +297,8 @@ def cases(rng, tier, worker, nworkers):
         c = G.gen_case(rng, param, G.TYPES16, opts_clean if i % 3 else opts_all)
         if i % 4 == 1:
             c = G.gen_edits(rng, param, c)
+        elif i % 8 == 2:
+            c = G.gen_history(rng, c)
         yield fin(add_probes(c, rng))
 
 
@@ -306,6 +308,8 @@ def tags(case, impl):
         t.append('type:' + d['type'])
     if isinstance(impl, dict) and impl.get('invalid'):
         t.append('invalid-state')
+    if case.get('added') or case.get('replaced'):
+        t.append('history:add_parameter')
     if case.get('edits'):
         t.append('instance-edits')
         t += ['edit:' + e[1] for e in case['edits']]
